@@ -1466,7 +1466,8 @@ class MSgate(Channel):
 
         s = np.sqrt(sf.hbar / 2)
         ancillae_val = backend.mb_squeeze_single_shot(*reg, r, phi, r_anc, eta_anc)
-        return ancillae_val / s
+        # the backend works at hbar = 2: the outcome is converted to the front-end units
+        return s * ancillae_val
 
 
 class PassiveChannel(Channel):
